@@ -479,4 +479,406 @@ theorem sewLoop_ok (val : Nat → Option Val) (fp : List Val) :
               simp only [sewLoop, he, hfind, hsew]
               exact hm'
 
+/-! ## the cell phase, forward -/
+
+/-- storage 0 covers every dart -/
+def HasV (m : Map Val) : Prop := ∀ d, d < m.n → m.okA 0 d = true
+
+theorem corner_form {fp : List Val} {vids : List Nat} {d0 i : Nat} {st st' : Map Val × Buf}
+    (hc : corner fp vids d0 i st = .ok st') :
+    ∃ p, st'.1 = ((st.1.setA 0 (d0 + i) (some p)).setβ 1 (d0 + i)
+        (if i = vids.length - 1 then d0 else d0 + i + 1)).setβ 0
+        (if i = vids.length - 1 then d0 else d0 + i + 1) (d0 + i) := by
+  unfold corner at hc
+  simp only at hc
+  split at hc
+  · simp at hc
+  · rename_i p hp
+    split at hc
+    · rename_i o m1 hw
+      obtain ⟨ok1, rfl⟩ := run_writeVtx_ok (atomically_ok hw)
+      split at hc
+      · rename_i u m2 hl
+        obtain ⟨_, _, _, _, rfl⟩ := oneLinkCore_ok (atomically_ok hl)
+        simp only [Out.ok.injEq] at hc
+        subst hc
+        exact ⟨p, rfl⟩
+      · simp at hc
+    · simp at hc
+
+theorem corner_misc {fp : List Val} {vids : List Nat} {d0 i : Nat} {st st' : Map Val × Buf}
+    (hc : corner fp vids d0 i st = .ok st') :
+    (∀ s d, st'.1.okA s d = st.1.okA s d) ∧ st'.1.fc = st.1.fc := by
+  obtain ⟨p, hp⟩ := corner_form hc
+  rw [hp]
+  refine ⟨fun s d => ?_, rfl⟩
+  simp only [Map.okA_setβ, Map.okA_setA]
+
+theorem corner_ok {fp : List Val} {vids : List Nat} {d0 i : Nat} {st : Map Val × Buf} (hwf : WF 3 st.1)
+    (hi : i < vids.length) (hd0 : d0 ≠ 0) (hn : d0 + vids.length ≤ st.1.n) (hasV : HasV st.1) {p : Val}
+    (hp : fp[vids.getD i 0]? = some p) (h1 : st.1.β 1 (d0 + i) = 0)
+    (h0 : st.1.β 0 (if i = vids.length - 1 then d0 else d0 + i + 1) = 0) :
+    ∃ st', corner fp vids d0 i st = .ok st' := by
+  have sz := hwf.toSized
+  have hdn : (if i = vids.length - 1 then d0 else d0 + i + 1) < st.1.n := by split <;> omega
+  have hw := atomically_of_run (run_writeVtx (v := p) (hasV (d0 + i) (by omega)))
+  have o1 : (st.1.setA 0 (d0 + i) (some p)).okβ 1 (d0 + i) = true := (sz.okβ 1 _).2 ⟨by omega, by omega⟩
+  have o0 : (st.1.setA 0 (d0 + i) (some p)).okβ 0 (if i = vids.length - 1 then d0 else d0 + i + 1) = true :=
+    (sz.okβ 0 _).2 ⟨by omega, hdn⟩
+  have hl := atomically_of_run (run_oneLinkCore_ok (m := st.1.setA 0 (d0 + i) (some p)) o1 o0 h1 h0)
+  refine ⟨(((st.1.setA 0 (d0 + i) (some p)).setβ 1 (d0 + i)
+      (if i = vids.length - 1 then d0 else d0 + i + 1)).setβ 0
+      (if i = vids.length - 1 then d0 else d0 + i + 1) (d0 + i),
+      bufInsert st.2 (vids.getD i 0, vids.getD ((i + 1) % vids.length) 0) (d0 + i)), ?_⟩
+  unfold corner
+  simp only [hp, hw, hl]
+
+/-- darts of the cell under construction that are still free -/
+structure Fresh (vids : List Nat) (d0 s : Nat) (m : Map Val) : Prop where
+  b1 : ∀ i, s ≤ i → i < vids.length → m.β 1 (d0 + i) = 0
+  b0 : ∀ j, s < j → j < vids.length → m.β 0 (d0 + j) = 0
+  b00 : s < vids.length → m.β 0 d0 = 0
+
+theorem corners_ok {fp : List Val} {vids : List Nat} {d0 : Nat} (hd0 : d0 ≠ 0)
+    (hr : ∀ i, i < vids.length → ∃ p, fp[vids.getD i 0]? = some p) :
+    ∀ (len s : Nat) (st : Map Val × Buf), s + len = vids.length → d0 + vids.length ≤ st.1.n →
+      Inv (d0 + s) st → HasV st.1 → Fresh vids d0 s st.1 →
+      ∃ st', foldOut (corner fp vids d0) (List.range' s len) st = .ok st' := by
+  intro len
+  induction len with
+  | zero => intro s st _ _ _ _ _; exact ⟨st, by simp [foldOut]⟩
+  | succ len ih =>
+      intro s st hs hn hinv hasV hf
+      have hslt : s < vids.length := by omega
+      obtain ⟨p, hp⟩ := hr s hslt
+      have h0 : st.1.β 0 (if s = vids.length - 1 then d0 else d0 + s + 1) = 0 := by
+        split
+        · exact hf.b00 hslt
+        · exact hf.b0 (s + 1) (by omega) (by omega)
+      obtain ⟨s1, hx⟩ := corner_ok hinv.wf hslt hd0 hn hasV hp (hf.b1 s (Nat.le_refl _) hslt) h0
+      obtain ⟨h1, n1⟩ := corner_inv hd0 hslt hn hinv hx
+      obtain ⟨q, _, _, hβ, _⟩ := corner_effect hx
+      obtain ⟨oka, _⟩ := corner_misc hx
+      have hnext := next_eq d0 s vids.length hslt
+      have hasV1 : HasV s1.1 := fun d hd => by rw [oka]; exact hasV d (by rw [← n1]; exact hd)
+      have hf1 : Fresh vids d0 (s + 1) s1.1 := by
+        refine ⟨?_, ?_, ?_⟩
+        · intro i hi hik
+          rw [hβ]
+          have c1 : ¬ ((1 : Nat) = 0 ∧ d0 + i = (if s = vids.length - 1 then d0 else d0 + s + 1)) := by
+            intro hh; omega
+          have c2 : ¬ ((1 : Nat) = 1 ∧ d0 + i = d0 + s) := by intro hh; omega
+          rw [if_neg c1, if_neg c2]
+          exact hf.b1 i (by omega) hik
+        · intro j hj hjk
+          rw [hβ, hnext]
+          have hmod : (s + 1) % vids.length = s + 1 ∨ (s + 1) % vids.length = 0 := by
+            by_cases c : s + 1 < vids.length
+            · exact Or.inl (Nat.mod_eq_of_lt c)
+            · have : s + 1 = vids.length := by omega
+              rw [this, Nat.mod_self]; exact Or.inr rfl
+          have c1 : ¬ ((0 : Nat) = 0 ∧ d0 + j = d0 + (s + 1) % vids.length) := by
+            intro hh; rcases hmod with e | e <;> omega
+          have c2 : ¬ ((0 : Nat) = 1 ∧ d0 + j = d0 + s) := by intro hh; omega
+          rw [if_neg c1, if_neg c2]
+          exact hf.b0 j (by omega) hjk
+        · intro hk
+          rw [hβ, hnext]
+          have hmod : (s + 1) % vids.length = s + 1 := Nat.mod_eq_of_lt hk
+          have c1 : ¬ ((0 : Nat) = 0 ∧ d0 = d0 + (s + 1) % vids.length) := by intro hh; omega
+          have c2 : ¬ ((0 : Nat) = 1 ∧ d0 = d0 + s) := by intro hh; omega
+          rw [if_neg c1, if_neg c2]
+          exact hf.b00 hslt
+      obtain ⟨st', hst'⟩ := ih (s + 1) s1 (by omega) (by rw [n1]; exact hn) h1 hasV1 hf1
+      refine ⟨st', ?_⟩
+      rw [List.range'_succ]
+      unfold foldOut
+      rw [hx]
+      exact hst'
+
+theorem hasV_addFreeDarts {m : Map Val} (hwf : WF 3 m) (h : HasV m) (k : Nat) : HasV (m.addFreeDarts k).2 := by
+  intro d hd
+  have h0 := h 0 hwf.npos
+  have ha : 0 < m.a.size := by
+    unfold Map.okA at h0
+    simp only [Bool.and_eq_true, decide_eq_true_eq] at h0
+    exact h0.1
+  have sz := hwf.toSized.addFreeDarts k
+  have ha' : 0 < (m.addFreeDarts k).2.a.size := by simp [Map.addFreeDarts]; exact ha
+  have := sz.asz 0 ha'
+  unfold Map.okA
+  simp only [Bool.and_eq_true, decide_eq_true_eq]
+  exact ⟨ha', by omega⟩
+
+theorem buildFace_ok {fp : List Val} {vids : List Nat} {st : Map Val × Buf} (h : Inv st.1.n st)
+    (hasV : HasV st.1) (hr : ∀ i, i < vids.length → ∃ p, fp[vids.getD i 0]? = some p) :
+    ∃ st', buildFace fp vids st = .ok st' := by
+  have hpos : st.1.n ≠ 0 := by have := h.wf.npos; omega
+  have sz := h.wf.toSized
+  have h0 : Inv (st.1.n + 0) ((st.1.addFreeDarts vids.length).2, st.2) :=
+    { wf := h.wf.addFreeDarts (by omega) _
+      used := addFreeDarts_used h.wf h.used _
+      le := by show st.1.n + 0 ≤ st.1.n + vids.length; omega
+      pos := h.pos
+      lt := fun e he => by have := h.lt e he; omega
+      inj := h.inj }
+  have hf : Fresh vids st.1.n 0 (st.1.addFreeDarts vids.length).2 := by
+    refine ⟨fun i _ _ => ?_, fun j _ _ => ?_, fun _ => ?_⟩
+    · rw [addFreeDarts_β sz _ 1 _ (by omega), if_neg (by omega)]
+    · rw [addFreeDarts_β sz _ 0 _ (by omega), if_neg (by omega)]
+    · rw [addFreeDarts_β sz _ 0 _ (by omega), if_neg (by omega)]
+  obtain ⟨st', hst'⟩ := corners_ok (fp := fp) (vids := vids) (d0 := st.1.n) hpos hr vids.length 0
+    ((st.1.addFreeDarts vids.length).2, st.2) (by omega)
+    (by show st.1.n + vids.length ≤ st.1.n + vids.length; omega) h0 (hasV_addFreeDarts h.wf hasV _) hf
+  refine ⟨st', ?_⟩
+  unfold buildFace
+  simp only
+  rw [List.range_eq_range']
+  exact hst'
+
+/-- a cell the importer accepts: a `Vertex` / `Line` / `Triangle` / `Quad` of the right length, or a
+    `Polygon` -/
+def GoodCell (c : VCell) : Prop :=
+  (c.ty = 1 ∧ c.vids.length = 1) ∨ (c.ty = 3 ∧ c.vids.length = 2) ∨ (c.ty = 5 ∧ c.vids.length = 3) ∨
+  c.ty = 7 ∨ (c.ty = 9 ∧ c.vids.length = 4)
+
+instance (c : VCell) : Decidable (GoodCell c) := by unfold GoodCell; exact inferInstance
+
+theorem buildFace_misc {fp : List Val} {vids : List Nat} {st st' : Map Val × Buf} (hwf : WF 3 st.1)
+    (hasV : HasV st.1) (hb : buildFace fp vids st = .ok st') : HasV st'.1 ∧ st'.1.fc = st.1.fc := by
+  obtain ⟨n1, _, _, _⟩ := buildFace_spec hwf hb
+  unfold buildFace at hb
+  simp only at hb
+  have q := foldOut_inv (f := corner fp vids (st.1.addFreeDarts vids.length).1)
+    (Q := fun s : Map Val × Buf => (∀ t d, s.1.okA t d = (st.1.addFreeDarts vids.length).2.okA t d) ∧
+      s.1.fc = st.1.fc)
+    (fun x s s' hq hx => by
+      obtain ⟨a, b⟩ := corner_misc hx
+      exact ⟨fun t d => by rw [a, hq.1], by rw [b, hq.2]⟩) _
+    ((st.1.addFreeDarts vids.length).2, st.2) st' ⟨fun _ _ => rfl, rfl⟩ hb
+  refine ⟨fun d hd => ?_, q.2⟩
+  rw [q.1]
+  exact hasV_addFreeDarts hwf hasV _ d (by rw [addFreeDarts_n, ← n1]; exact hd)
+
+theorem cellStep_misc {fp : List Val} {c : VCell} {st st' : Map Val × Buf} (hwf : WF 3 st.1)
+    (hasV : HasV st.1) (hc : cellStep fp c st = .ok st') : HasV st'.1 ∧ st'.1.fc = st.1.fc := by
+  rcases cellStep_cases hc with ⟨_, rfl⟩ | ⟨_, hb⟩
+  · exact ⟨hasV, rfl⟩
+  · exact buildFace_misc hwf hasV hb
+
+theorem cellStep_ok {fp : List Val} {c : VCell} {st : Map Val × Buf} (h : Inv st.1.n st) (hasV : HasV st.1)
+    (hg : GoodCell c)
+    (hr : (c.ty = 5 ∨ c.ty = 7 ∨ c.ty = 9) → ∀ i, i < c.vids.length → ∃ p, fp[c.vids.getD i 0]? = some p) :
+    ∃ st', cellStep fp c st = .ok st' := by
+  rcases hg with ⟨t, l⟩ | ⟨t, l⟩ | ⟨t, l⟩ | t | ⟨t, l⟩
+  · exact ⟨st, by unfold cellStep; simp [t, l]⟩
+  · exact ⟨st, by unfold cellStep; simp [t, l]⟩
+  · obtain ⟨st', hb⟩ := buildFace_ok (fp := fp) (vids := c.vids) h hasV (hr (Or.inl t))
+    exact ⟨st', by unfold cellStep; simp [t, l, hb]⟩
+  · obtain ⟨st', hb⟩ := buildFace_ok (fp := fp) (vids := c.vids) h hasV (hr (Or.inr (Or.inl t)))
+    exact ⟨st', by unfold cellStep; simp [t, hb]⟩
+  · obtain ⟨st', hb⟩ := buildFace_ok (fp := fp) (vids := c.vids) h hasV (hr (Or.inr (Or.inr t)))
+    exact ⟨st', by unfold cellStep; simp [t, l, hb]⟩
+
+theorem cells_ok {fp : List Val} :
+    ∀ (cells : List VCell) (st : Map Val × Buf), Inv st.1.n st → HasV st.1 →
+      (∀ c, c ∈ cells → GoodCell c) →
+      (∀ c, c ∈ cells → (c.ty = 5 ∨ c.ty = 7 ∨ c.ty = 9) → ∀ i, i < c.vids.length →
+        ∃ p, fp[c.vids.getD i 0]? = some p) →
+      ∃ st', foldOut (cellStep fp) cells st = .ok st' ∧ HasV st'.1 ∧ st'.1.fc = st.1.fc := by
+  intro cells
+  induction cells with
+  | nil => intro st _ hv _ _; exact ⟨st, by simp [foldOut], hv, rfl⟩
+  | cons c cs ih =>
+      intro st hinv hv hg hr
+      obtain ⟨s1, hx⟩ := cellStep_ok hinv hv (hg c List.mem_cons_self) (hr c List.mem_cons_self)
+      obtain ⟨hv1, fc1⟩ := cellStep_misc hinv.wf hv hx
+      obtain ⟨st', hst', hv', fc'⟩ := ih s1 (cellStep_inv hinv hx) hv1
+        (fun c' hc' => hg c' (List.mem_cons_of_mem _ hc')) (fun c' hc' => hr c' (List.mem_cons_of_mem _ hc'))
+      refine ⟨st', ?_, hv', by rw [fc', fc1]⟩
+      unfold foldOut
+      rw [hx]
+      exact hst'
+
+/-! ## from the pre-sew map to the sew invariant -/
+
+theorem sideOf_vals {fp : List Val} {m : Map Val} :
+    ∀ (vs : List (List Nat)) (s d : Nat) (k : Nat × Nat), SideOf s vs d k → FacesAt fp m s vs →
+      (∃ p, fp[k.1]? = some p ∧ m.att 0 d = some p) ∧ (∃ q, fp[k.2]? = some q ∧ m.att 0 (m.β 1 d) = some q) := by
+  intro vs
+  induction vs with
+  | nil => intro s d k h; exact h.elim
+  | cons v vs ih =>
+      intro s d k h hf
+      rcases h with ⟨i, hi, rfl, rfl⟩ | h
+      · obtain ⟨hb, _, p, hp, ha⟩ := hf.1 i hi
+        have hj : (i + 1) % v.length < v.length := Nat.mod_lt _ (by omega)
+        obtain ⟨_, _, q, hq, hqa⟩ := hf.1 _ hj
+        exact ⟨⟨p, hp, ha⟩, ⟨q, hq, by rw [hb]; exact hqa⟩⟩
+      · exact ih _ d k h hf.2
+
+theorem sideOf_mem_allSides : ∀ (vs : List (List Nat)) (s d : Nat) (k : Nat × Nat), SideOf s vs d k →
+    k ∈ allSides vs := by
+  intro vs
+  induction vs with
+  | nil => intro s d k h; exact h.elim
+  | cons v vs ih =>
+      intro s d k h
+      rw [allSides_cons]
+      rcases h with ⟨i, hi, _, rfl⟩ | h
+      · exact List.mem_append_left _ (mem_sidesOf.2 ⟨i, hi, rfl⟩)
+      · exact List.mem_append_right _ (ih _ d k h)
+
+theorem facesAt_closed {fp : List Val} {m : Map Val} :
+    ∀ (vs : List (List Nat)) (s : Nat), 1 ≤ s → FacesAt fp m s vs →
+      ∀ d, s ≤ d → d < s + (vs.map List.length).sum → m.β 1 d ≠ 0 := by
+  intro vs
+  induction vs with
+  | nil => intro s _ _ d h1 h2; simp at h2; omega
+  | cons v vs ih =>
+      intro s hs hf d h1 h2
+      by_cases c : d < s + v.length
+      · obtain ⟨hb, _⟩ := hf.1 (d - s) (by omega)
+        have : s + (d - s) = d := by omega
+        rw [this] at hb
+        rw [hb]; omega
+      · refine ih (s + v.length) (by omega) hf.2 d (by omega) ?_
+        simp only [List.map_cons, List.sum_cons] at h2
+        omega
+
+/-- before any 2-sew every dart is its own vertex -/
+theorem sameCell_trivial {m : Map Val} (hwf : WF 3 m) (h2 : ∀ d, m.β 2 d = 0) {d e : Nat}
+    (h : SameCell (g2 m .vertex) m.n d e) : d = e := by
+  induction h with
+  | refl => rfl
+  | step hs =>
+      exfalso
+      obtain ⟨_, _, hb0, hb⟩ := hs
+      simp only [g2, h2, List.mem_cons, List.not_mem_nil, or_false] at hb
+      rw [hwf.null 1 (by omega)] at hb
+      rcases hb with hb | hb <;> exact hb0 hb
+  | symm _ ih => exact ih.symm
+  | trans _ _ ih1 ih2 => exact ih1.trans ih2
+
+/-- the hypotheses on the points: the two ends of every side exist and differ in the plane -/
+def SidesDistinct (fp : List Val) (sides : List (Nat × Nat)) : Prop :=
+  ∀ k, k ∈ sides → ∃ x y x' y', fp[k.1]? = some (.pt x y 0) ∧ fp[k.2]? = some (.pt x' y' 0) ∧
+    (x ≠ x' ∨ y ≠ y')
+
+theorem sewInv_init {pts : List Val} {cells : List VCell} {m0 : Map Val} {buf : Buf}
+    (hb : buildCells pts cells = .ok (m0, buf)) (hasV : HasV m0) (hfc : m0.fc = 0)
+    (hdist : SidesDistinct (pts.map flat) (allSides (faceLists cells))) :
+    SewInv (fun d => m0.att 0 d) (pts.map flat) m0 buf := by
+  obtain ⟨hn, hb2, hfa⟩ := C11_buildCells_structure pts cells m0 buf hb
+  have hinv := buildCells_inv hb
+  have hwf := hinv.wf
+  have hfold : foldOut (cellStep (pts.map flat)) cells (emptyMap, []) = .ok (m0, buf) := by
+    unfold buildCells at hb; exact hb
+  have hk := cells_keys cells (emptyMap, []) (m0, buf) inv_empty hfold
+  have side : ∀ e, e ∈ buf → SideOf 1 (faceLists cells) e.2 e.1 := by
+    intro e he
+    rcases hk e he with h' | h'
+    · simp at h'
+    · exact h'
+  have idself : ∀ d, d ≠ 0 → d < m0.n → cellId m0 .vertex d = d := by
+    intro d hd0 hd
+    have := (C04.mem_cell_iff hwf hd0 hd _).1 (cellId_spec hwf (pol := .vertex) trivial hd0 hd).1
+    exact (sameCell_trivial hwf hb2 this).symm
+  exact
+    { inv := hinv
+      free := fun e _ => hb2 e.2
+      fc := hfc
+      hasV := hasV
+      closed := fun d hd0 hd => facesAt_closed _ 1 (Nat.le_refl _) hfa d (by omega) (by omega)
+      const := fun d e _ _ h => by rw [sameCell_trivial hwf hb2 h]
+      vals := fun d hd0 hd => by rw [idself d hd0 hd]
+      keyv := fun e he => by
+        obtain ⟨⟨p, hp, ha⟩, ⟨q, hq, hqa⟩⟩ := sideOf_vals _ 1 e.2 e.1 (side e he) hfa
+        exact ⟨by rw [ha, hp], by rw [hqa, hq]⟩
+      pts := fun e he => hdist e.1 (sideOf_mem_allSides _ 1 e.2 e.1 (side e he)) }
+
+/-- corner `i` of the j-th polygonal cell is dart `d0ⱼ + i`; its successor is the next corner and its
+    VERTEX (identifier `vertex_id`) carries the cell's i-th point -/
+def CornersAt (fp : List Val) (m : Map Val) : Nat → List (List Nat) → Prop
+  | _, [] => True
+  | s, v :: vs =>
+      (∀ i, i < v.length → m.β 1 (s + i) = s + (i + 1) % v.length ∧
+        ∃ p, fp[v.getD i 0]? = some p ∧ m.att 0 (cellId m .vertex (s + i)) = some p) ∧
+      CornersAt fp m (s + v.length) vs
+
+theorem cornersAt_of {fp : List Val} {m0 m : Map Val} (hβ : ∀ d, m.β 1 d = m0.β 1 d)
+    (hv : ∀ d, d ≠ 0 → d < m0.n → m.att 0 (cellId m .vertex d) = m0.att 0 d) :
+    ∀ (vs : List (List Nat)) (s : Nat), 1 ≤ s → s + (vs.map List.length).sum ≤ m0.n →
+      FacesAt fp m0 s vs → CornersAt fp m s vs := by
+  intro vs
+  induction vs with
+  | nil => intro _ _ _ _; trivial
+  | cons v vs ih =>
+      intro s hs hn hf
+      simp only [List.map_cons, List.sum_cons] at hn
+      refine ⟨fun i hi => ?_, ih (s + v.length) (by omega) (by omega) hf.2⟩
+      obtain ⟨hb, _, p, hp, ha⟩ := hf.1 i hi
+      exact ⟨by rw [hβ, hb], p, hp, by rw [hv _ (by omega) (by omega), ha]⟩
+
+/-- **C11 (a6): the import of a conforming list is TOTAL and keeps the coordinates.**
+    Hypotheses (the property's notion of a conforming unstructured grid): every cell is accepted
+    (`GoodCell`), no directed side is used twice (hence every undirected side at most twice, in opposite
+    directions), and the two end points of every side exist and have different `(x, y)`.
+    Conclusion: `build_2d_from_vtk` returns `Ok m` — no error, and none of its `unwrap`s fires —; `m` is
+    well formed, has exactly one dart per polygon corner, one β1 cycle on consecutive darts per polygonal
+    cell (in the order of the cell's points), and after ALL the sews the vertex of corner `i` of cell `j`
+    still carries the coordinates of the cell's i-th point (z dropped).  The gluing is characterised by
+    `C11_import_faces_and_gluing` / `C11_import_gluing_complete` (both apply since the result is `Ok`). -/
+theorem C11_import_conforming_ok (pts : List Val) (cells : List VCell) (mask : Nat)
+    (hg : ∀ c, c ∈ cells → GoodCell c) (hnd : (allSides (faceLists cells)).Nodup)
+    (hdist : SidesDistinct (pts.map flat) (allSides (faceLists cells))) :
+    ∃ m, importCells pts cells mask = .ok m ∧ WF 3 m ∧
+      m.n = 1 + ((faceLists cells).map List.length).sum ∧
+      CornersAt (pts.map flat) m 1 (faceLists cells) := by
+  -- every polygon index is the origin of a side, hence in range
+  have hr : ∀ c, c ∈ cells → (c.ty = 5 ∨ c.ty = 7 ∨ c.ty = 9) → ∀ i, i < c.vids.length →
+      ∃ p, (pts.map flat)[c.vids.getD i 0]? = some p := by
+    intro c hc hty i hi
+    have hmem : c.vids ∈ faceLists cells := by
+      unfold faceLists
+      rw [List.mem_filterMap]
+      exact ⟨c, hc, by simp [hty]⟩
+    have hside : (c.vids.getD i 0, c.vids.getD ((i + 1) % c.vids.length) 0) ∈ allSides (faceLists cells) := by
+      unfold allSides
+      rw [List.mem_flatten]
+      exact ⟨sidesOf c.vids, List.mem_map_of_mem hmem, mem_sidesOf.2 ⟨i, hi, rfl⟩⟩
+    obtain ⟨x, y, _, _, h1, _, _⟩ := hdist _ hside
+    exact ⟨_, h1⟩
+  have hv0 : HasV emptyMap := by
+    intro d hd
+    have : d = 0 := by have : emptyMap.n = 1 := rfl; omega
+    subst this; decide
+  obtain ⟨st, hfold, hasV, hfc⟩ := cells_ok (fp := pts.map flat) cells (emptyMap, []) inv_empty hv0 hg hr
+  obtain ⟨m0, buf⟩ := st
+  have hb : buildCells pts cells = .ok (m0, buf) := by unfold buildCells; exact hfold
+  have hfc0 : m0.fc = 0 := by rw [hfc]; rfl
+  have sinv := sewInv_init hb hasV hfc0 hdist
+  obtain ⟨m, hm, hn, hvals⟩ := sewLoop_ok _ _ (buf.length + 1) buf m0 (by omega) sinv
+  have himp : importCells pts cells mask = .ok m := by
+    unfold importCells
+    rw [hb]
+    exact hm
+  obtain ⟨hn0, _, hfa⟩ := C11_buildCells_structure pts cells m0 buf hb
+  have r := sewLoop_sewn _ buf m0 m hm
+  refine ⟨m, himp, C11_import_ok_WF _ _ _ _ himp, by rw [hn, hn0], ?_⟩
+  exact cornersAt_of (fun d => r.b01 1 d (by omega)) (fun d hd0 hd => hvals d hd0 (by rw [hn]; exact hd))
+    _ 1 (Nat.le_refl _) (by rw [hn0]) hfa
+
+/-- non-vacuity: `exCells` over `exPts` is conforming (the `Line` cell is accepted and ignored) -/
+example : (∀ c, c ∈ exCells → GoodCell c) ∧ (allSides (faceLists exCells)).Nodup := by decide
+example : SidesDistinct (exPts.map flat) (allSides (faceLists exCells)) := by
+  intro k hk
+  have : k ∈ [(0, 1), (1, 2), (2, 0), (0, 2), (2, 3), (3, 0), (1, 4), (4, 5), (5, 2), (2, 1)] := by
+    have e : allSides (faceLists exCells) = [(0, 1), (1, 2), (2, 0), (0, 2), (2, 3), (3, 0), (1, 4), (4, 5), (5, 2), (2, 1)] := by
+      decide
+    rw [← e]; exact hk
+  simp only [List.mem_cons, List.not_mem_nil, or_false] at this
+  rcases this with rfl | rfl | rfl | rfl | rfl | rfl | rfl | rfl | rfl | rfl <;>
+    exact ⟨_, _, _, _, rfl, rfl, by decide⟩
+
 end HC.C11
